@@ -39,6 +39,28 @@ CHECKS = {
         "united with the published construction.",
         design="4/C05",
     ),
+    "C10": dict(
+        text="Breadth-first exploration of DSL operation sequences from a 24-atom alphabet (thorough: also three operations deep "
+        "from a 12-atom alphabet): for every well-scoped expression reached and every ordering, the value function of the "
+        "canonical form (exact rationals over generic tables, every value assignment) is compared with that of the expression; "
+        "all states are grouped by canonical form across shards and every group must have one value function.",
+        note="Trusted: mc/semantics.py evaluator and the well-scopedness predicate of DESIGN 2.4.",
+        design="4/C10",
+    ),
+    "C11": dict(
+        text="Same state space: canonicalize is applied to each state, to its canonical form (fix-point, by object equality and "
+        "text) and to every presentation variant (factor permutations, product re-nesting, children/parents permutations at "
+        "every node, everything reversed); the ordered canonical texts are hashed and compared across PYTHONHASHSEED values.",
+        note="Variants are built with the raw dataclass constructors; equality is y0's own dataclass equality plus exact structure.",
+        design="4/C11",
+    ),
+    "C13": dict(
+        text="Same state space: every operator / helper of the menu is applied to every source state (binary operators with every "
+        "atom on either side, every range subset, every ordering); the result's value function is compared with the mathematical "
+        "operation applied to the arguments' value functions at every assignment; chain expansion must yield markov kernels.",
+        note="Trusted: evaluator; e.conditional(R) is read as e / sum of e over its non-subscript variables outside R.",
+        design="4/C13",
+    ),
     "C15": dict(
         text="For every graph of the bound, every size limit k (None, 0..n-2, n) and three enumeration variants, the returned set of "
         "judgements is compared pair by pair with minimum separating-set sizes computed by brute force with the path-definition "
